@@ -107,6 +107,15 @@ func c15apiMix(rep *vh.Report, seed uint64, idx int) {
 			return
 		}
 		_ = node.WriteFrameExcept(e.Ch, e.Frame)
+		if v2, ok := e.Frame.(*frame.V2Frame); ok && n%5 == 2 {
+			// edit-and-resend: the original has just been handed to the channel writers; a value copy of it (sharing nothing
+			// that the application writes) is re-stamped, fixed and sent as well
+			cp := *v2
+			cp.SystemID ^= 0x01
+			_ = node.FixFrame(&cp)
+			_ = node.WriteFrameExcept(e.Ch, &cp)
+			rep.Count("copies_fixed_while_the_original_is_queued", 1)
+		}
 	}
 	cons.start()
 	var stop int32
